@@ -94,6 +94,7 @@ class SourceTree:
             self.inlined += inline.outline_vanished_helpers(self._asts, ref)
             self.inlined += inline.inline_new_helpers(self._asts, ref)
             self.inlined += inline.inline_new_constants(self._asts, ref)
+            self.inlined += inline.namedtuples_to_tuples(self._asts, ref)
             self.inlined += inline.unroll_literal_loops(self._asts, ref)
             self.inlined += inline.normalize_idioms(self._asts, ref)
             self.inlined += inline.keyset_dicts_to_sets(self._asts, ref)
